@@ -58,6 +58,19 @@ def handleCompact (args : List (String × String)) : String :=
     s!"res={rs} written={if w then 1 else 0} calls={calls}"
   | _, _, _, _ => "bad-op"
 
-def replicaSyncHandlers : Handlers := [("once", handleOnce), ("sync", handleSync), ("compact", handleCompact)]
+/-- `init REMOTE=<t,…> DBPOS=<local pos> F=<faults>` → `res=<ok|errList|errOpen> rebased=<0|1> calls=<n>`
+    (`rebased` = the local position was moved to the remote maximum) -/
+def handleInit (args : List (String × String)) : String :=
+  match (arg? args "REMOTE").bind (fun s => natList? s ','), natArg? args "DBPOS", (arg? args "F").bind parseAssign? with
+  | some rem, some d, some φ =>
+    let r : R := ⟨rem, 1, 0, d, 1, 0⟩
+    let x := initCheck φ r
+    let rs := match x.2 with | .ok => "ok" | .errList => "errList" | .errOpen => "errOpen"
+    let rb := if x.2 == .ok && x.1.dbPos != d then 1 else 0
+    s!"res={rs} rebased={rb} calls={x.1.k}"
+  | _, _, _ => "bad-op"
+
+def replicaSyncHandlers : Handlers :=
+  [("once", handleOnce), ("sync", handleSync), ("compact", handleCompact), ("init", handleInit)]
 
 end Litestream.Driver
